@@ -452,6 +452,14 @@ func (c *PullClient) newRequest(method string, url *url.URL) *Request {
 }
 
 func (c *PullClient) receiveResponse() (resp *Response, err error) {
+	// 握手阶段的每个响应都必须在网络超时内到达，
+	// 否则只接受连接而不应答的对端会永久阻塞请求者并泄漏连接
+	if timeout := config.NetTimeout(); timeout > 0 {
+		if err = c.conn.SetReadDeadline(time.Now().Add(timeout)); err != nil {
+			return nil, err
+		}
+	}
+
 	resp, err = ReadResponse(c.conn.Reader())
 	if err != nil {
 		return nil, err
